@@ -304,7 +304,7 @@ def run_cases(prop_name, lines, jobs=16, timeout=600):
     with multiprocessing.Pool(jobs) as pool:
         results = pool.map(_worker, args)
     tot = {'pairs': 0, 'corr_disagree': 0, 'pred_fail': 0, 'outcomes': {}, 'impl_s': 0.0, 'model_s': 0.0,
-           'crash': None, 'samples': [], 'nontrivial': 0}
+           'crash': None, 'samples': [], 'nontrivial': 0, 'known': {}}
     fails = []
     for st, fl in results:
         for k in ('pairs', 'corr_disagree', 'pred_fail'):
@@ -313,6 +313,8 @@ def run_cases(prop_name, lines, jobs=16, timeout=600):
         tot['model_s'] += st['model_s']
         for k, v in st['outcomes'].items():
             tot['outcomes'][k] = tot['outcomes'].get(k, 0) + v
+        for k, v in st.get('known', {}).items():
+            tot['known'][k] = tot['known'].get(k, 0) + v
         tot['nontrivial'] += st['nontrivial']
         if st['crash']:
             tot['crash'] = st['crash']
